@@ -399,7 +399,7 @@ def check_argument(I, tree, arg, step, H, V, guards=None):
                 return [f"'argument' is set under a guard that is not decided by which argument the step has: {[(fmt(c, I), p_) for c, p_ in guards]}"]
             is_set = all(hs)
             if is_set != (has_dt or has_ds):
-                probs.append(f"'argument' is not set exactly when an argument exists (case dataTable={has_dt}, docString={has_ds}: set={is_set})")
+                probs.append(f"'argument' is not set exactly when an argument exists (case dataTable={has_dt}, docString={has_ds}: set={is_set}; guards {[(fmt(c, I), p_) for c, p_ in guards]})")
                 continue
         elif not (has_dt or has_ds):
             if not is_const(leaf, None):
@@ -867,6 +867,37 @@ def rule_fold(rep: Report, rid="C10.fold", rid_set="C10.set") -> None:
                expected="{Unknown} U keywordType minus Conjunction", found="by the fold shape above", **kw)
 
 
+def _flows_cover(dg, flows, limit=10) -> bool:
+    """The uses of a value, each under its own conditions, together cover every case of the conditions it is produced
+    under (the same value placed in either arm of a selection is used on both)."""
+    import itertools
+    known = {t: p for t, p in dg}
+    atoms: list = []
+    for g in flows:
+        for t, _ in g:
+            if not (t[0] == "cmp" and t[1] == "Is"):
+                nf._test_atoms(t, atoms)
+    free = [a for a in atoms if a not in known]
+    if len(free) > limit:
+        return False
+    for vals in itertools.product((True, False), repeat=len(free)):
+        assign = dict(known)
+        assign.update(zip(free, vals))
+        def holds(g):
+            for t, p in g:
+                if t[0] == "cmp" and t[1] == "Is":
+                    continue
+                try:
+                    if nf.eval_test(t, assign) != p:
+                        return False
+                except KeyError:
+                    return False
+            return True
+        if not any(holds(g) for g in flows):
+            return False
+    return True
+
+
 def rule_ids(rep: Report, rid_order="C11.order", rid_src="C11.src") -> None:
     """Compiler side of C11: step ids are drawn before their pickle's id; every draw lands in one emitted 'id' field
     under the same conditions it is drawn."""
@@ -917,6 +948,8 @@ def rule_ids(rep: Report, rid_order="C11.order", rid_src="C11.src") -> None:
         dg = set(nf.guards_in_ctx(ctx))
         flows = used.get(serial, [])
         ok = any(set(g) <= dg | {x for x in g if x[0][0] == "cmp" and x[0][1] == "Is"} for g in flows)
+        if not ok and flows:
+            ok = _flows_cover(dg, flows)
         rep.ob(rid_src, "an id drawn by the compiler always ends up as the id of an emitted pickle / pickle step (no id is burnt)", ok,
                expected="draw and use under the same conditions",
                found=("never reaches the output" if not flows else
